@@ -176,6 +176,10 @@ Inductive stmt :=
 | SContinue
 | SExpr (e : expr)
 | SDestroy (e : expr)
+| SGuard (c : expr) (b : block)                       (* guard c else { b } *)
+| SGuardLet (e : expr) (tv : ty) (b rest : block)     (* guard let x = e else { b } ; rest
+                                                         (rest = the remaining statements of the enclosing
+                                                          block: the scope of x) *)
 with block :=
 | BNil
 | BCons (s : stmt) (b : block).
